@@ -1,4 +1,703 @@
-import OsloModel.Net
+/-
+C11 — address validators accept exactly well-formed values and never raise.
+
+Property theorems only; helper lemmas and the spec-level definitions they share
+(`renderOctet`, `renderQuad`, `joinSep`, `IsGroup`, `groupVal`, `StrictDec`, `AddrOK`, `MaskOK`,
+`PrefixOK`) live in `OsloProofs/Lemmas/C11*.lean`.  Every theorem quantifies over all texts
+(`List Char`, i.e. every Python str without lone surrogates) or all numbers it talks about.
+
+Totality ("never raises") is by construction: every model function is a total Lean function that
+returns a Bool; that the implementation never answers with an exception where the model answers a
+Bool is the correspondence / search obligation.
+
+What is NOT proved here (covered by the correspondence and the search only): a full grammar
+characterisation of `isValidIPv6` (accept ⇒ has one of the rendered shapes) and of the inet_aton part
+of `isValidIP` (short / hex / octal forms, trailing text after white space = known finding
+C11-ip-inet-aton-trailing-text).
+-/
+import OsloProofs.Lemmas.C11Cidr
+import OsloProofs.Lemmas.C11V6c
+set_option linter.unusedSimpArgs false
+set_option linter.unusedVariables false
 namespace Oslo.Net
-theorem placeholder_partial : isValidMac [] = false := by decide
+
+/-! ### is_valid_ipv4 (strict) -/
+
+/-- `is_valid_ipv4` accepts exactly the canonical dotted quads `'%d.%d.%d.%d'` with four octets below 256:
+    four parts, ASCII digits only, no leading zero, nothing before, between or after. -/
+theorem ipv4_accept_iff_canonical (s : List Char) :
+    isValidIPv4 s = true ↔
+      ∃ a b c d, a < 256 ∧ b < 256 ∧ c < 256 ∧ d < 256 ∧ s = renderQuad a b c d := by
+  constructor
+  · intro h
+    unfold isValidIPv4 at h
+    split at h
+    · cases h
+    · unfold strToInt4 at h
+      split at h; · cases h
+      split at h; · cases h
+      split at h; · cases h
+      split at h
+      · rename_i q hq
+        obtain ⟨a, b, c, d, ha, hb, hc, hd, e, _⟩ := lemma_pton4_some s q hq
+        exact ⟨a, b, c, d, ha, hb, hc, hd, e⟩
+      · cases h
+  · rintro ⟨a, b, c, d, ha, hb, hc, hd, rfl⟩
+    have hsp := lemma_renderQuad_split a b c d ha hb hc hd
+    have hch := lemma_renderQuad_chars a b c d ha hb hc hd
+    have hne : (renderQuad a b c d).isEmpty = false := by
+      unfold renderQuad renderOctet; split <;> simp
+    have hcolon : ':' ∉ renderQuad a b c d := by
+      intro h; rcases hch _ h with h | h <;> revert h <;> decide
+    have hnul : nul ∉ renderQuad a b c d := by
+      intro h; rcases hch _ h with h | h <;> revert h <;> decide
+    have ot := fun n hn => lemma_octetTok_render n hn
+    have hlz : ∀ n, n < 256 → leadingZero (renderOctet n) = false := by
+      intro n hn
+      have := ot n hn
+      simp only [octetTok, Bool.and_eq_true, Bool.not_eq_true'] at this
+      exact this.1.2
+    simp [isValidIPv4, strToInt4, hne, hcolon, hnul, hsp, pton4, hlz, ot, ha, hb, hc, hd, isOk]
+
+/-- the rendering used above is ordinary decimal notation -/
+theorem renderOctet_is_decimal : ∀ n, n < 256 → renderOctet n = Nat.toDigits 10 n := by decide +kernel
+
+example : isValidIPv4 "192.168.0.255".toList = true := by decide
+example : "192.168.0.255".toList = renderQuad 192 168 0 255 := by decide
+example : isValidIPv4 "192.168.0.256".toList = false := by decide
+example : isValidIPv4 "192.168.00.1".toList = false := by decide
+example : isValidIPv4 "192.168.1".toList = false := by decide
+example : isValidIPv4 "0x7f.0.0.1".toList = false := by decide
+example : isValidIPv4 "1.2.3.4\n".toList = false := by decide
+
+/-! ### is_valid_ipv6 -/
+
+/-- the hex digit with value `k` (lower case) -/
+def hexDig (k : Nat) : Char := if k < 10 then Char.ofNat (48 + k) else Char.ofNat (87 + k)
+
+/-- `'%x' % g` for a 16-bit group -/
+def renderGroup (g : Nat) : List Char :=
+  if g < 16 then [hexDig g]
+  else if g < 256 then [hexDig (g / 16), hexDig (g % 16)]
+  else if g < 4096 then [hexDig (g / 256), hexDig (g / 16 % 16), hexDig (g % 16)]
+  else [hexDig (g / 4096), hexDig (g / 256 % 16), hexDig (g / 16 % 16), hexDig (g % 16)]
+
+theorem lemma_hexDig : ∀ k, k < 16 → isHex (hexDig k) = true ∧ hexVal (hexDig k) = k := by decide
+
+theorem lemma_renderGroup (g : Nat) (h : g < 65536) : IsGroup (renderGroup g) ∧ groupVal (renderGroup g) = g := by
+  unfold renderGroup
+  split
+  · have h1 := lemma_hexDig g (by omega)
+    exact ⟨⟨by simp, by simp, by simp [h1.1]⟩, by simp [groupVal, h1.2]⟩
+  · split
+    · have h1 := lemma_hexDig (g / 16) (by omega)
+      have h2 := lemma_hexDig (g % 16) (by omega)
+      exact ⟨⟨by simp, by simp, by simp [h1.1, h2.1]⟩, by simp [groupVal, h1.2, h2.2]; omega⟩
+    · split
+      · have h1 := lemma_hexDig (g / 256) (by omega)
+        have h2 := lemma_hexDig (g / 16 % 16) (by omega)
+        have h3 := lemma_hexDig (g % 16) (by omega)
+        exact ⟨⟨by simp, by simp, by simp [h1.1, h2.1, h3.1]⟩, by simp [groupVal, h1.2, h2.2, h3.2]; omega⟩
+      · have h1 := lemma_hexDig (g / 4096) (by omega)
+        have h2 := lemma_hexDig (g / 256 % 16) (by omega)
+        have h3 := lemma_hexDig (g / 16 % 16) (by omega)
+        have h4 := lemma_hexDig (g % 16) (by omega)
+        exact ⟨⟨by simp, by simp, by simp [h1.1, h2.1, h3.1, h4.1]⟩,
+          by simp [groupVal, h1.2, h2.2, h3.2, h4.2]; omega⟩
+
+theorem lemma_renderGroups (gs : List Nat) (h : ∀ g ∈ gs, g < 65536) :
+    (∀ t ∈ gs.map renderGroup, IsGroup t) ∧ (gs.map renderGroup).map groupVal = gs := by
+  constructor
+  · intro t ht
+    simp only [List.mem_map] at ht
+    obtain ⟨g, hg, rfl⟩ := ht
+    exact (lemma_renderGroup g (h g hg)).1
+  · induction gs with
+    | nil => rfl
+    | cons g gs ih =>
+      simp only [List.map_cons]
+      rw [(lemma_renderGroup g (h g (by simp))).2, ih (fun x hx => h x (by simp [hx]))]
+
+/-- whatever the `inet_pton6` model parses is a valid address for `is_valid_ipv6` (no scope id involved) -/
+theorem lemma_valid_of_pton6 (s : List Char) (g : List Nat) (h : pton6 s = some g) : isValidIPv6 s = true := by
+  have hch := lemma_pton6_chars s g h
+  have hpct : '%' ∉ s := fun hm => lemma_not_v6char.1 (hch _ hm)
+  have hnul : nul ∉ s := fun hm => lemma_not_v6char.2.2 (hch _ hm)
+  have hne : s.isEmpty = false := by
+    cases s with
+    | nil => simp [pton6] at h
+    | cons c r => rfl
+  simp [isValidIPv6, hne, lemma_rsplitLast_notin '%' s hpct, strToInt6, hnul, h, isOk]
+
+/-- without a '%' the answer is the answer of `inet_pton6` on the whole text -/
+theorem ipv6_noscope (s : List Char) (hp : '%' ∉ s) :
+    isValidIPv6 s = true ↔ nul ∉ s ∧ ∃ g, pton6 s = some g := by
+  constructor
+  · intro h
+    unfold isValidIPv6 at h
+    split at h
+    · cases h
+    · rw [lemma_rsplitLast_notin '%' s hp] at h
+      simp only [strToInt6] at h
+      by_cases hn : nul ∈ s
+      · simp [hn, isOk] at h
+      · cases hq : pton6 s with
+        | none => simp [hn, hq, isOk] at h
+        | some g => exact ⟨hn, g, rfl⟩
+  · rintro ⟨_, g, hg⟩
+    exact lemma_valid_of_pton6 s g hg
+
+/-- Full rendering: eight groups of at most four hex digits joined by ':' are accepted, and parse to
+    their values.  (Groups may use either case and leading zeros; `renderGroup` is one instance.) -/
+theorem ipv6_accepts_full (ts : List (List Char)) (h : ∀ t ∈ ts, IsGroup t) (h8 : ts.length = 8) :
+    isValidIPv6 (joinSep ':' ts) = true ∧ pton6 (joinSep ':' ts) = some (ts.map groupVal) := by
+  have := lemma_pton6_full ts h
+  rw [if_pos h8] at this
+  exact ⟨lemma_valid_of_pton6 _ _ this, this⟩
+
+/-- Every `::`-compression: `pre :: post` with at most seven groups in total is accepted and parses to
+    `pre`, then zeros up to eight groups, then `post` (also `::`, `::x`, `x::`). -/
+theorem ipv6_accepts_compressed (pre post : List (List Char)) (hp : ∀ t ∈ pre, IsGroup t)
+    (hq : ∀ t ∈ post, IsGroup t) (h7 : pre.length + post.length ≤ 7) :
+    let s := joinSep ':' pre ++ ':' :: ':' :: joinSep ':' post
+    isValidIPv6 s = true ∧
+    pton6 s = some (pre.map groupVal ++ List.replicate (8 - (pre.length + post.length)) 0 ++ post.map groupVal) := by
+  have := lemma_pton6_compressed pre post hp hq
+  rw [if_pos h7] at this
+  exact ⟨lemma_valid_of_pton6 _ _ this, this⟩
+
+/-- IPv4-suffixed rendering: six groups and a canonical dotted quad. -/
+theorem ipv6_accepts_v4_suffix (pre : List (List Char)) (a b c d : Nat) (hp : ∀ t ∈ pre, IsGroup t)
+    (ha : a < 256) (hb : b < 256) (hc : c < 256) (hd : d < 256) (h6 : pre.length = 6) :
+    let s := joinSep ':' (pre ++ [renderQuad a b c d])
+    isValidIPv6 s = true ∧ pton6 s = some (pre.map groupVal ++ [a * 256 + b, c * 256 + d]) := by
+  have := lemma_pton6_v4_full pre a b c d hp ha hb hc hd (by intro e; simp [e] at h6)
+  rw [if_pos h6] at this
+  exact ⟨lemma_valid_of_pton6 _ _ this, this⟩
+
+/-- `::`-compressed IPv4-suffixed rendering (`::1.2.3.4`, `::ffff:1.2.3.4`, `64:ff9b::1.2.3.4`). -/
+theorem ipv6_accepts_compressed_v4_suffix (pre post : List (List Char)) (a b c d : Nat)
+    (hp : ∀ t ∈ pre, IsGroup t) (hq : ∀ t ∈ post, IsGroup t)
+    (ha : a < 256) (hb : b < 256) (hc : c < 256) (hd : d < 256) (h5 : pre.length + post.length ≤ 5) :
+    let s := joinSep ':' pre ++ ':' :: ':' :: joinSep ':' (post ++ [renderQuad a b c d])
+    isValidIPv6 s = true ∧
+    pton6 s = some (pre.map groupVal ++ List.replicate (6 - (pre.length + post.length)) 0 ++
+                      (post.map groupVal ++ [a * 256 + b, c * 256 + d])) := by
+  have := lemma_pton6_v4_compressed pre post a b c d hp hq ha hb hc hd
+  rw [if_pos h5] at this
+  exact ⟨lemma_valid_of_pton6 _ _ this, this⟩
+
+/-- For every 128-bit value given as eight 16-bit groups: the full `%x` rendering, every
+    `::`-compression of a run of zero groups, and the renderings with the last 32 bits as a dotted quad
+    are accepted by `is_valid_ipv6` — and parse back to exactly the eight groups. -/
+theorem ipv6_accepts_renderings (gs : List Nat) (hg : ∀ g ∈ gs, g < 65536) (h8 : gs.length = 8) :
+    (isValidIPv6 (joinSep ':' (gs.map renderGroup)) = true ∧
+      pton6 (joinSep ':' (gs.map renderGroup)) = some gs) ∧
+    (∀ pre z post, gs = pre ++ List.replicate z 0 ++ post → 1 ≤ z →
+      isValidIPv6 (joinSep ':' (pre.map renderGroup) ++ ':' :: ':' :: joinSep ':' (post.map renderGroup)) = true ∧
+      pton6 (joinSep ':' (pre.map renderGroup) ++ ':' :: ':' :: joinSep ':' (post.map renderGroup)) = some gs) ∧
+    (∀ pre a b c d, a < 256 → b < 256 → c < 256 → d < 256 → gs = pre ++ [a * 256 + b, c * 256 + d] →
+      isValidIPv6 (joinSep ':' (pre.map renderGroup ++ [renderQuad a b c d])) = true ∧
+      pton6 (joinSep ':' (pre.map renderGroup ++ [renderQuad a b c d])) = some gs) ∧
+    (∀ pre z post a b c d, a < 256 → b < 256 → c < 256 → d < 256 →
+      gs = pre ++ List.replicate z 0 ++ (post ++ [a * 256 + b, c * 256 + d]) → 1 ≤ z →
+      isValidIPv6 (joinSep ':' (pre.map renderGroup) ++ ':' :: ':' ::
+        joinSep ':' (post.map renderGroup ++ [renderQuad a b c d])) = true ∧
+      pton6 (joinSep ':' (pre.map renderGroup) ++ ':' :: ':' ::
+        joinSep ':' (post.map renderGroup ++ [renderQuad a b c d])) = some gs) := by
+  refine ⟨?_, ?_, ?_, ?_⟩
+  · have hr := lemma_renderGroups gs hg
+    have := ipv6_accepts_full (gs.map renderGroup) hr.1 (by simpa using h8)
+    rw [hr.2] at this; exact this
+  · intro pre z post e hz
+    subst e
+    have hpre := lemma_renderGroups pre (fun g h => hg g (by simp [h]))
+    have hpost := lemma_renderGroups post (fun g h => hg g (by simp [h]))
+    simp only [List.length_append, List.length_replicate] at h8
+    have := ipv6_accepts_compressed (pre.map renderGroup) (post.map renderGroup) hpre.1 hpost.1
+      (by simp; omega)
+    simp only [hpre.2, hpost.2, List.length_map] at this
+    rw [show 8 - (pre.length + post.length) = z by omega] at this
+    exact this
+  · intro pre a b c d ha hb hc hd e
+    subst e
+    have hpre := lemma_renderGroups pre (fun g h => hg g (by simp [h]))
+    simp only [List.length_append, List.length_cons, List.length_nil] at h8
+    have := ipv6_accepts_v4_suffix (pre.map renderGroup) a b c d hpre.1 ha hb hc hd (by simp; omega)
+    simp only [hpre.2] at this
+    exact this
+  · intro pre z post a b c d ha hb hc hd e hz
+    subst e
+    have hpre := lemma_renderGroups pre (fun g h => hg g (by simp [h]))
+    have hpost := lemma_renderGroups post (fun g h => hg g (by simp [h]))
+    simp only [List.length_append, List.length_replicate, List.length_cons, List.length_nil] at h8
+    have := ipv6_accepts_compressed_v4_suffix (pre.map renderGroup) (post.map renderGroup) a b c d
+      hpre.1 hpost.1 ha hb hc hd (by simp; omega)
+    simp only [hpre.2, hpost.2, List.length_map] at this
+    rw [show 6 - (pre.length + post.length) = z by omega] at this
+    exact this
+
+example : joinSep ':' ([0x2001, 0xdb8, 0, 0, 0, 0xff00, 0x42, 0x8329].map renderGroup)
+    = "2001:db8:0:0:0:ff00:42:8329".toList := by decide
+example : isValidIPv6 "2001:db8::ff00:42:8329".toList = true := by decide
+example : isValidIPv6 "::ffff:192.0.2.128".toList = true := by decide
+example : isValidIPv6 "::".toList = true := by decide
+
+theorem lemma_joinSep_mem (sep : Char) (ts : List (List Char)) (c : Char) (h : c ∈ joinSep sep ts) :
+    c = sep ∨ ∃ t ∈ ts, c ∈ t := by
+  induction ts with
+  | nil => simp [joinSep] at h
+  | cons t r ih =>
+    cases r with
+    | nil => simp [joinSep] at h; exact Or.inr ⟨t, by simp, h⟩
+    | cons u r' =>
+      simp only [joinSep, List.mem_append, List.mem_cons] at h
+      rcases h with h | h | h
+      · exact Or.inr ⟨t, by simp, h⟩
+      · exact Or.inl h
+      · rcases ih h with h | ⟨x, hx, hc⟩
+        · exact Or.inl h
+        · exact Or.inr ⟨x, by simp [hx], hc⟩
+
+theorem lemma_groups_no_pct (ts : List (List Char)) (h : ∀ t ∈ ts, IsGroup t) : '%' ∉ joinSep ':' ts := by
+  intro hm
+  rcases lemma_joinSep_mem ':' ts '%' hm with h1 | ⟨t, ht, hc⟩
+  · revert h1; decide
+  · exact (lemma_hex_ne '%' ((h t ht).2.2 '%' hc)).2.2.1 rfl
+
+/-- wrong group count, no `::`: groups joined by ':' are accepted only when there are exactly eight -/
+theorem ipv6_rejects_group_count (ts : List (List Char)) (h : ∀ t ∈ ts, IsGroup t) (h8 : ts.length ≠ 8) :
+    isValidIPv6 (joinSep ':' ts) = false := by
+  rw [Bool.eq_false_iff]
+  intro hv
+  obtain ⟨_, g, hg⟩ := (ipv6_noscope _ (lemma_groups_no_pct ts h)).1 hv
+  rw [lemma_pton6_full ts h, if_neg h8] at hg
+  cases hg
+
+/-- wrong group count with `::`: eight or more groups around a `::` are rejected -/
+theorem ipv6_rejects_group_count_compressed (pre post : List (List Char)) (hp : ∀ t ∈ pre, IsGroup t)
+    (hq : ∀ t ∈ post, IsGroup t) (h8 : 8 ≤ pre.length + post.length) :
+    isValidIPv6 (joinSep ':' pre ++ ':' :: ':' :: joinSep ':' post) = false := by
+  rw [Bool.eq_false_iff]
+  intro hv
+  have hpct : '%' ∉ joinSep ':' pre ++ ':' :: ':' :: joinSep ':' post := by
+    intro hm
+    simp only [List.mem_append, List.mem_cons] at hm
+    rcases hm with hm | hm | hm | hm
+    · exact lemma_groups_no_pct pre hp hm
+    · revert hm; decide
+    · revert hm; decide
+    · exact lemma_groups_no_pct post hq hm
+  obtain ⟨_, g, hg⟩ := (ipv6_noscope _ hpct).1 hv
+  rw [lemma_pton6_compressed pre post hp hq, if_neg (by omega)] at hg
+  cases hg
+
+/-- over-long group: five hex digits at the start of the text or right after a ':' are rejected,
+    whatever stands before and after -/
+theorem ipv6_rejects_long_group (p rest : List Char) (h1 h2 h3 h4 h5 : Char)
+    (hp : p = [] ∨ ∃ q, p = q ++ [':'])
+    (e1 : isHex h1 = true) (e2 : isHex h2 = true) (e3 : isHex h3 = true) (e4 : isHex h4 = true)
+    (e5 : isHex h5 = true) (hpct : '%' ∉ p ++ h1 :: h2 :: h3 :: h4 :: h5 :: rest) :
+    isValidIPv6 (p ++ h1 :: h2 :: h3 :: h4 :: h5 :: rest) = false := by
+  rw [Bool.eq_false_iff]
+  intro hv
+  obtain ⟨_, g, hg⟩ := (ipv6_noscope _ hpct).1 hv
+  rcases hp with rfl | ⟨q, rfl⟩
+  · simp only [List.nil_append] at hg
+    rw [lemma_pton6_hex_start h1 _ e1, lemma_go6_five _ _ _ _ _ _ _ rfl e1 e2 e3 e4 e5] at hg
+    cases hg
+  · simp only [List.append_assoc, List.cons_append, List.nil_append] at hg
+    have key := fun st => lemma_go6_long_group · st h1 h2 h3 h4 h5 rest e1 e2 e3 e4 e5
+    cases q with
+    | nil =>
+      simp only [List.nil_append, pton6, if_true] at hg
+      rw [if_neg (lemma_hex_ne h1 e1).1] at hg
+      cases hg
+    | cons c q' =>
+      simp only [List.cons_append, pton6] at hg
+      split at hg
+      · cases q' with
+        | nil =>
+          simp only [List.nil_append, if_true] at hg
+          rw [lemma_go6_long_group [] _ h1 h2 h3 h4 h5 rest e1 e2 e3 e4 e5] at hg
+          cases hg
+        | cons c2 q'' =>
+          simp only [List.cons_append] at hg
+          split at hg
+          · rw [← List.cons_append, lemma_go6_long_group _ _ h1 h2 h3 h4 h5 rest e1 e2 e3 e4 e5] at hg
+            cases hg
+          · cases hg
+      · rw [← List.cons_append, lemma_go6_long_group _ _ h1 h2 h3 h4 h5 rest e1 e2 e3 e4 e5] at hg
+        cases hg
+
+/-- two `::`: any text that contains `::` twice is rejected -/
+theorem ipv6_rejects_two_double_colons (x y z : List Char)
+    (hpct : '%' ∉ x ++ ':' :: ':' :: (y ++ ':' :: ':' :: z)) :
+    isValidIPv6 (x ++ ':' :: ':' :: (y ++ ':' :: ':' :: z)) = false := by
+  rw [Bool.eq_false_iff]
+  intro hv
+  obtain ⟨_, g, hg⟩ := (ipv6_noscope _ hpct).1 hv
+  cases x with
+  | nil =>
+    simp only [List.nil_append, pton6, if_true, lemma_init6] at hg
+    rw [lemma_go6_dcolon, lemma_go6_second_dcolon y _ z (by simp [S])] at hg
+    cases hg
+  | cons c x' =>
+    simp only [List.cons_append, pton6] at hg
+    split at hg
+    · cases x' with
+      | nil =>
+        simp only [List.nil_append, if_true] at hg
+        rw [lemma_go6_two_dcolons [] _ y z] at hg
+        cases hg
+      | cons c2 x'' =>
+        simp only [List.cons_append] at hg
+        split at hg
+        · rw [← List.cons_append, lemma_go6_two_dcolons _ _ y z] at hg
+          cases hg
+        · cases hg
+    · rw [← List.cons_append, lemma_go6_two_dcolons _ _ y z] at hg
+      cases hg
+
+/-- scope id: with the text after the last '%' as scope id, the answer is "1 ≤ length ≤ 15 and the
+    address part is valid on its own" -/
+theorem ipv6_scope_iff (a sc : List Char) (hs : '%' ∉ sc) :
+    isValidIPv6 (a ++ '%' :: sc) = true ↔
+      1 ≤ sc.length ∧ sc.length ≤ 15 ∧ isOk (strToInt6 a) = true := by
+  have hne : (a ++ '%' :: sc).isEmpty = false := by cases a <;> simp
+  simp only [isValidIPv6, hne, lemma_rsplitLast_append '%' a sc hs]
+  by_cases h1 : sc.length < 1
+  · simp [h1]; omega
+  · by_cases h2 : sc.length > 15
+    · simp [h2]; omega
+    · simp [h1, h2]; omega
+
+/-- scope id of length 0 -/
+theorem ipv6_rejects_empty_scope (a : List Char) : isValidIPv6 (a ++ ['%']) = false := by
+  rw [Bool.eq_false_iff]; intro h
+  have := (ipv6_scope_iff a [] (by simp)).1 h
+  simp at this
+
+/-- scope id longer than 15 characters -/
+theorem ipv6_rejects_long_scope (a sc : List Char) (hs : '%' ∉ sc) (hl : 15 < sc.length) :
+    isValidIPv6 (a ++ '%' :: sc) = false := by
+  rw [Bool.eq_false_iff]; intro h
+  have := (ipv6_scope_iff a sc hs).1 h
+  omega
+
+example : isValidIPv6 "fe80::1%eth0".toList = true := by decide
+example : isValidIPv6 "fe80::1%".toList = false := by decide
+example : isValidIPv6 "fe80::1%0123456789abcdef".toList = false := by decide
+example : isValidIPv6 "1:2:3:4:5:6:7".toList = false := by decide
+example : isValidIPv6 "1::2::3".toList = false := by decide
+example : isValidIPv6 "12345::".toList = false := by decide
+
+/-! ### is_valid_ip -/
+
+theorem ip_accepts_ipv6 (s : List Char) (h : isValidIPv6 s = true) : isValidIP s = true := by
+  simp [isValidIP, h]
+
+theorem ip_iff (s : List Char) :
+    isValidIP s = true ↔ isValidIPv4Aton s = true ∨ isValidIPv6 s = true := by
+  simp [isValidIP]
+
+/-! ### is_valid_cidr / is_valid_ipv6_cidr -/
+
+/-- `IPAddress(a, 4)` accepts exactly what `is_valid_ipv4` accepts -/
+theorem addrOK_v4_iff (a : List Char) : AddrOK .v4 a ↔ isValidIPv4 a = true := by
+  constructor
+  · rintro ⟨x, hx⟩
+    have hs := lemma_ipAddress_ok_noslash .v4 a x hx
+    have hne : a.isEmpty = false := by
+      cases a with
+      | nil => rw [lemma_ipAddress_nil] at hx; cases hx
+      | cons c r => rfl
+    simp [ipAddress, hs] at hx
+    simp [isValidIPv4, hne, hx, isOk]
+  · intro h
+    obtain ⟨p, q, r, t, hp, hq, hr, ht, rfl⟩ := (ipv4_accept_iff_canonical a).1 h
+    have hs : '/' ∉ renderQuad p q r t := by
+      intro hm
+      rcases lemma_renderQuad_chars p q r t hp hq hr ht _ hm with h | h <;> revert h <;> decide
+    unfold isValidIPv4 at h
+    split at h
+    · cases h
+    · cases hx : strToInt4 (renderQuad p q r t) with
+      | error e => rw [hx] at h; cases h
+      | ok x => exact ⟨x, by simp [ipAddress, hs, hx]⟩
+
+/-- `IPAddress(a, 6)` accepts exactly the texts without '%' that `is_valid_ipv6` accepts -/
+theorem addrOK_v6_iff (a : List Char) : AddrOK .v6 a ↔ '%' ∉ a ∧ isValidIPv6 a = true := by
+  constructor
+  · rintro ⟨x, hx⟩
+    have hs := lemma_ipAddress_ok_noslash .v6 a x hx
+    simp only [ipAddress] at hx
+    rw [if_neg (by simpa using hs)] at hx
+    simp only [strToInt6] at hx
+    split at hx
+    · cases hx
+    · cases hq : pton6 a with
+      | none => rw [hq] at hx; cases hx
+      | some g =>
+        exact ⟨fun hm => lemma_not_v6char.1 (lemma_pton6_chars a g hq _ hm), lemma_valid_of_pton6 a g hq⟩
+  · rintro ⟨hp, h⟩
+    obtain ⟨hn, g, hg⟩ := (ipv6_noscope a hp).1 h
+    have hs : '/' ∉ a := fun hm => lemma_not_v6char.2.1 (lemma_pton6_chars a g hg _ hm)
+    exact ⟨groupsValue g, by simp [ipAddress, hs, strToInt6, hn, hg]⟩
+
+/-- the class of known finding N5: text after the '/' that Python `int()` accepts although it is not
+    `[0-9]+` (white space, sign, underscores, non-ASCII digits) -/
+def N5Class (p : List Char) : Prop := (∃ n, pyInt p = some n) ∧ ¬ StrictDec p
+
+/-- the strict reading of a prefix: `[0-9]+` with value at most the width, or a netmask / hostmask address -/
+def StrictPrefixOK (v : Ver) (p : List Char) : Prop :=
+  (StrictDec p ∧ decVal p ≤ width v) ∨ (¬ StrictDec p ∧ MaskOK v p)
+
+/-- Full characterisation of the model (= the code as it is): exactly one leading address part, a '/',
+    and a prefix text read with Python `int()` semantics (this is where N5 lives) or a mask. -/
+theorem cidr_iff (s : List Char) :
+    isValidCidr s = true ↔
+      ∃ a p, s = a ++ '/' :: p ∧ '/' ∉ a ∧
+        ((isValidIPv4 a = true ∧ PrefixOK .v4 p) ∨ (('%' ∉ a ∧ isValidIPv6 a = true) ∧ PrefixOK .v6 p)) := by
+  rw [lemma_cidr_iff]
+  simp only [addrOK_v4_iff, addrOK_v6_iff]
+
+/-- a missing or empty prefix, doubled or extra slashes: an accepted text has exactly one '/' and
+    something after it -/
+theorem cidr_requires_one_slash (s : List Char) (h : isValidCidr s = true) :
+    ∃ a p, s = a ++ '/' :: p ∧ '/' ∉ a ∧ '/' ∉ p ∧ p ≠ [] := by
+  obtain ⟨a, p, e, ha, hp⟩ := (lemma_cidr_iff s).1 h
+  have := (hp.elim (fun h => lemma_prefix_shape _ p h.2) (fun h => lemma_prefix_shape _ p h.2))
+  exact ⟨a, p, e, ha, this.2, this.1⟩
+
+theorem cidr_rejects_no_slash (s : List Char) (h : '/' ∉ s) : isValidCidr s = false := by
+  rw [Bool.eq_false_iff]; intro hv
+  obtain ⟨a, p, e, _⟩ := cidr_requires_one_slash s hv
+  exact h (by rw [e]; simp)
+
+theorem cidr_rejects_empty_prefix (a : List Char) : isValidCidr (a ++ ['/']) = false := by
+  rw [Bool.eq_false_iff]; intro hv
+  obtain ⟨a', p, e, ha', hp, hne⟩ := cidr_requires_one_slash _ hv
+  -- the last character of the text is '/', so it is the last character of `p`
+  have : (a ++ ['/']).getLast? = some '/' := by simp
+  rw [e] at this
+  cases p with
+  | nil => exact hne rfl
+  | cons c r =>
+    have h2 : (a' ++ '/' :: c :: r).getLast? = (c :: r).getLast? := by
+      rw [show a' ++ '/' :: c :: r = (a' ++ ['/']) ++ (c :: r) by simp, List.getLast?_append]; simp
+    rw [h2] at this
+    exact hp (List.mem_of_getLast? this)
+
+theorem cidr_rejects_second_slash (a p : List Char) (hp : '/' ∈ p) : isValidCidr (a ++ '/' :: p) = false := by
+  rw [Bool.eq_false_iff]; intro hv
+  obtain ⟨a', p', e, ha', hp', _⟩ := cidr_requires_one_slash _ hv
+  by_cases ha : '/' ∈ a
+  · obtain ⟨a1, a2, rfl, h1⟩ := lemma_first_split '/' a ha
+    have e2 : a1 ++ '/' :: (a2 ++ '/' :: p) = a' ++ '/' :: p' := by simpa using e
+    obtain ⟨_, rfl⟩ := lemma_split_unique '/' a1 _ a' p' h1 ha' e2
+    exact hp' (by simp)
+  · obtain ⟨_, rfl⟩ := lemma_split_unique '/' a p a' p' ha ha' e
+    exact hp' hp
+
+theorem lemma_prefix_strict (v : Ver) (p : List Char) (hN5 : ¬ N5Class p)
+    (hlen : Gen.maxStrDigits = 0 ∨ p.length ≤ Gen.maxStrDigits) : PrefixOK v p ↔ StrictPrefixOK v p := by
+  unfold PrefixOK StrictPrefixOK
+  by_cases hs : StrictDec p
+  · rw [lemma_pyInt_strict p hs hlen]
+    simp [hs]
+    omega
+  · have hnone : pyInt p = none := by
+      cases hq : pyInt p with
+      | none => rfl
+      | some n => exact absurd ⟨⟨n, hq⟩, hs⟩ hN5
+    simp [hs, hnone]
+
+/-- `is_valid_cidr` over the strict prefix grammar.  PARTIAL: it excludes the known-finding class
+    `N5Class p` (prefix text accepted by `int()` but not `[0-9]+`, where the code answers true — see
+    `cidr_iff` and the examples below) and assumes the prefix is not longer than CPython's
+    `int` digit limit (4300). Under these: the text is valid iff the address part is a valid IPv4
+    (IPv6, without scope id) address and the prefix is `[0-9]+` with value ≤ 32 (≤ 128) or a
+    netmask/hostmask of the same family. -/
+theorem cidr_iff_strict_partial (a p : List Char) (ha : '/' ∉ a) (hN5 : ¬ N5Class p)
+    (hlen : Gen.maxStrDigits = 0 ∨ p.length ≤ Gen.maxStrDigits) :
+    isValidCidr (a ++ '/' :: p) = true ↔
+      (isValidIPv4 a = true ∧ StrictPrefixOK .v4 p) ∨
+      (('%' ∉ a ∧ isValidIPv6 a = true) ∧ StrictPrefixOK .v6 p) := by
+  rw [cidr_iff]
+  constructor
+  · rintro ⟨a', p', e, ha', h⟩
+    obtain ⟨rfl, rfl⟩ := lemma_split_unique '/' a p a' p' ha ha' e
+    simpa only [lemma_prefix_strict _ p hN5 hlen] using h
+  · intro h
+    exact ⟨a, p, rfl, ha, by simpa only [lemma_prefix_strict _ p hN5 hlen] using h⟩
+
+/-- `is_valid_ipv6_cidr`: a bare IPv6 address, or address '/' prefix (model semantics, `int()` prefix) -/
+theorem cidr6_iff (s : List Char) :
+    isValidIPv6Cidr s = true ↔
+      ('/' ∉ s ∧ '%' ∉ s ∧ isValidIPv6 s = true) ∨
+      ∃ a p, s = a ++ '/' :: p ∧ '/' ∉ a ∧ ('%' ∉ a ∧ isValidIPv6 a = true) ∧ PrefixOK .v6 p := by
+  rw [lemma_cidr6_iff]
+  simp only [addrOK_v6_iff]
+
+/-- PARTIAL in the same way as `cidr_iff_strict_partial` (excludes N5, digit limit). -/
+theorem cidr6_iff_strict_partial (a p : List Char) (ha : '/' ∉ a) (hN5 : ¬ N5Class p)
+    (hlen : Gen.maxStrDigits = 0 ∨ p.length ≤ Gen.maxStrDigits) :
+    isValidIPv6Cidr (a ++ '/' :: p) = true ↔
+      ('%' ∉ a ∧ isValidIPv6 a = true) ∧ StrictPrefixOK .v6 p := by
+  rw [cidr6_iff]
+  constructor
+  · rintro (⟨hno, _⟩ | ⟨a', p', e, ha', h⟩)
+    · exact absurd (by simp) hno
+    · obtain ⟨rfl, rfl⟩ := lemma_split_unique '/' a p a' p' ha ha' e
+      simpa only [lemma_prefix_strict _ p hN5 hlen] using h
+  · intro h
+    exact Or.inr ⟨a, p, rfl, ha, by simpa only [lemma_prefix_strict _ p hN5 hlen] using h⟩
+
+/-- every prefix length 0..32 / 0..128 written in decimal is a strict prefix (non-vacuity of the
+    strict branch), and the 33 IPv4 netmasks are masks -/
+example : StrictPrefixOK .v4 "24".toList := Or.inl ⟨⟨by decide, by decide⟩, by decide⟩
+example : ¬ N5Class "24".toList := fun h => h.2 ⟨by decide, by decide⟩
+example : isValidCidr "10.0.0.0/24".toList = true := by decide
+example : isValidCidr "10.0.0.0/33".toList = false := by decide
+example : isValidCidr "10.0.0.0/255.255.255.0".toList = true := by decide
+example : isValidCidr "10.0.0.0/255.0.255.0".toList = false := by decide
+example : isValidCidr "2600::/64".toList = true := by decide
+example : isValidCidr "2600::/129".toList = false := by decide
+example : isValidIPv6Cidr "2600::".toList = true := by decide
+example : isValidIPv6Cidr "10.0.0.0/8".toList = false := by decide
+/-- the N5 witnesses: the model (like the code) accepts them; they are in `N5Class` -/
+example : isValidCidr "10.0.0.0/8 ".toList = true := by decide
+example : isValidCidr "10.0.0.0/+8".toList = true := by decide
+example : isValidCidr "10.0.0.0/0_8".toList = true := by decide
+example : N5Class "8 ".toList := ⟨⟨8, by decide⟩, fun h => by have := h.2 ' ' (by decide); revert this; decide⟩
+
+/-! ### is_valid_mac -/
+
+/-- two hex digits -/
+def HexPair (t : List Char) : Prop := ∃ a b, t = [a, b] ∧ isHex a = true ∧ isHex b = true
+
+theorem lemma_macGo_iff (n : Nat) (s : List Char) :
+    macGo n s = true ↔ ∃ g : List (List Char), g.length = n + 1 ∧ (∀ t ∈ g, HexPair t) ∧ s = joinSep ':' g := by
+  induction n generalizing s with
+  | zero =>
+    constructor
+    · intro h
+      match s, h with
+      | [a, b], h =>
+        simp [macGo] at h
+        exact ⟨[[a, b]], rfl, by intro t ht; simp at ht; subst ht; exact ⟨a, b, rfl, h.1, h.2⟩, by simp [joinSep]⟩
+    · rintro ⟨g, hl, hp, rfl⟩
+      match g, hl with
+      | [t], _ =>
+        obtain ⟨a, b, rfl, ha, hb⟩ := hp t (by simp)
+        simp [joinSep, macGo, ha, hb]
+  | succ n ih =>
+    constructor
+    · intro h
+      match s, h with
+      | a :: b :: c :: rest, h =>
+        simp [macGo] at h
+        obtain ⟨⟨⟨ha, hb⟩, hc⟩, hr⟩ := h
+        obtain ⟨g, hl, hp, rfl⟩ := (ih rest).1 hr
+        refine ⟨[a, b] :: g, by simp [hl], ?_, ?_⟩
+        · intro t ht
+          simp at ht
+          rcases ht with rfl | ht
+          · exact ⟨a, b, rfl, ha, hb⟩
+          · exact hp t ht
+        · rw [lemma_joinSep_cons _ _ _ (by intro e; simp [e] at hl)]; simp [hc]
+    · rintro ⟨g, hl, hp, rfl⟩
+      match g, hl with
+      | t :: g', hl =>
+        obtain ⟨a, b, rfl, ha, hb⟩ := hp t (by simp)
+        have hg' : g'.length = n + 1 := by simpa using hl
+        rw [lemma_joinSep_cons _ _ _ (by intro e; simp [e] at hg')]
+        simp only [List.cons_append, List.nil_append, macGo, ha, hb, Bool.and_true, decide_true, Bool.true_and]
+        exact (ih _).2 ⟨g', hg', fun t ht => hp t (by simp [ht]), rfl⟩
+
+/-- `is_valid_mac` accepts exactly six groups of two hex digits (either case) separated by ':' —
+    no other separator, nothing before or after (in particular no trailing newline, N2) -/
+theorem mac_iff (s : List Char) :
+    isValidMac s = true ↔
+      ∃ g : List (List Char), g.length = 6 ∧ (∀ t ∈ g, HexPair t) ∧ s = joinSep ':' g :=
+  lemma_macGo_iff 5 s
+
+theorem mac_length (s : List Char) (h : isValidMac s = true) : s.length = 17 := by
+  obtain ⟨g, hl, hp, rfl⟩ := (mac_iff s).1 h
+  match g, hl with
+  | [t1, t2, t3, t4, t5, t6], _ =>
+    obtain ⟨_, _, rfl, _, _⟩ := hp t1 (by simp)
+    obtain ⟨_, _, rfl, _, _⟩ := hp t2 (by simp)
+    obtain ⟨_, _, rfl, _, _⟩ := hp t3 (by simp)
+    obtain ⟨_, _, rfl, _, _⟩ := hp t4 (by simp)
+    obtain ⟨_, _, rfl, _, _⟩ := hp t5 (by simp)
+    obtain ⟨_, _, rfl, _, _⟩ := hp t6 (by simp)
+    simp [joinSep]
+
+example : isValidMac "52:54:00:cf:2D:31".toList = true := by decide
+example : isValidMac "52:54:00:cf:2d:31\n".toList = false := by decide
+example : isValidMac "52-54-00-cf-2d-31".toList = false := by decide
+example : isValidMac "52:54:00:cf:2d".toList = false := by decide
+example : isValidMac "52:54:00:cf:2d:31:00".toList = false := by decide
+
+/-! ### ports and ICMP numbers -/
+
+/-- a str is a valid port exactly when Python `int()` reads it as a number in 0..65535 -/
+theorem port_iff (s : List Char) :
+    isValidPort (.str s) = true ↔ ∃ n : Int, pyInt s = some n ∧ 0 ≤ n ∧ n ≤ 65535 := by
+  simp only [isValidPort, isIntInRange, toInt]
+  cases pyInt s <;> simp
+
+theorem port_int_iff (n : Int) : isValidPort (.int n) = true ↔ 0 ≤ n ∧ n ≤ 65535 := by
+  simp [isValidPort, isIntInRange, toInt]
+
+theorem port_none : isValidPort .none = false := rfl
+
+theorem icmp_type_iff (s : List Char) :
+    isValidIcmpType (.str s) = true ↔ ∃ n : Int, pyInt s = some n ∧ 0 ≤ n ∧ n ≤ 255 := by
+  simp only [isValidIcmpType, isIntInRange, toInt]
+  cases pyInt s <;> simp
+
+theorem icmp_type_int_iff (n : Int) : isValidIcmpType (.int n) = true ↔ 0 ≤ n ∧ n ≤ 255 := by
+  simp [isValidIcmpType, isIntInRange, toInt]
+
+theorem icmp_type_none : isValidIcmpType .none = false := rfl
+
+theorem icmp_code_iff (s : List Char) :
+    isValidIcmpCode (.str s) = true ↔ ∃ n : Int, pyInt s = some n ∧ 0 ≤ n ∧ n ≤ 255 := by
+  simp only [isValidIcmpCode, isIntInRange, toInt]
+  cases pyInt s <;> simp
+
+theorem icmp_code_int_iff (n : Int) : isValidIcmpCode (.int n) = true ↔ 0 ≤ n ∧ n ≤ 255 := by
+  simp [isValidIcmpCode, isIntInRange, toInt]
+
+theorem icmp_code_none : isValidIcmpCode .none = true := rfl
+
+/-- On plain decimal numerals `[0-9]+` the answer is the numeric comparison.  PARTIAL only in that it
+    assumes the numeral is within CPython's `int` digit limit (4300 digits; longer ones raise
+    ValueError inside `int()` and are answered False). -/
+theorem port_decimal_iff_partial (p : List Char) (h : StrictDec p)
+    (hlen : Gen.maxStrDigits = 0 ∨ p.length ≤ Gen.maxStrDigits) :
+    isValidPort (.str p) = true ↔ decVal p ≤ 65535 := by
+  rw [port_iff, lemma_pyInt_strict p h hlen]
+  simp
+  omega
+
+/-- every character of an accepted port text is white space, a sign, '_' or a decimal digit -/
+theorem port_alphabet (s : List Char) (h : isValidPort (.str s) = true) : ∀ c ∈ s, IntChar c := by
+  obtain ⟨n, hn, _⟩ := (port_iff s).1 h
+  exact lemma_pyInt_chars s n hn
+
+example : isValidPort (.str "65535".toList) = true := by decide
+example : isValidPort (.str "65536".toList) = false := by decide
+example : isValidPort (.str "-1".toList) = false := by decide
+example : isValidPort (.str " 80 ".toList) = true := by decide
+example : isValidPort (.str "8_0".toList) = true := by decide
+example : isValidPort (.str "80.0".toList) = false := by decide
+example : isValidPort (.str "".toList) = false := by decide
+example : isValidIcmpType (.str "255".toList) = true := by decide
+example : isValidIcmpType (.str "256".toList) = false := by decide
+example : StrictDec "65535".toList := ⟨by decide, by decide⟩
+
 end Oslo.Net
